@@ -102,8 +102,9 @@ def parse_config_file(args_dict):
 
     # First path.
     path = term.pop('path')
+    config_path = all_files.pop('path', '.')
     if path is None:
-        path = all_files.pop('path', '.')
+        path = config_path
     path = os.path.abspath(path)
 
     # Initiate files dict with defaults.
